@@ -18,6 +18,7 @@ func checkC12(p *Prog, r *Report) {
 	c12Tables(p, r, "C12.R1")
 	c12Leap(p, r, "C12.R2")
 	c12LeapThreshold(p, r)
+	c12InverseDayOfYear(p, r)
 	c12Formats(p, r)
 	c12Century(p, r)
 	c12Closures(p, r)
@@ -548,6 +549,43 @@ func c12LeapThreshold(p *Prog, r *Report) {
 	}
 	if !found {
 		r.Ob("inverse:leap-threshold", p.Pos(fi.Decl.Pos()), false, "no leap correction (KORR = 1) found in the inverse conversion")
+	}
+}
+
+// c12InverseDayOfYear: in the inverse direction the day of year is the day number minus the days of the
+// elapsed years; the 365-day term and the leap-day term must count the same (corrected) number of years.
+func c12InverseDayOfYear(p *Prog, r *Report) {
+	x := walked(p, "hermes.KalenderDate")
+	if x == nil {
+		return
+	}
+	found := false
+	for _, e := range x.Events {
+		if e.Kind != "assign" || e.Local == nil || e.Local.Name() != "TG" || !e.Val.MentionsAtom(varAtom("MASDAT")) {
+			continue
+		}
+		found = true
+		var yr *Atom
+		var leapArg Poly
+		nIdiv := 0
+		for _, t := range e.Val.sortedTerms() {
+			if len(t.M) != 1 || t.M[0].E != 1 {
+				continue
+			}
+			a := t.M[0].A
+			if t.C.Cmp(ratInt(-365)) == 0 {
+				yr = a
+			}
+			if a.Kind == "call" && a.Fn == "idiv" && len(a.Args) == 2 && t.C.Cmp(ratInt(-1)) == 0 {
+				nIdiv++
+				leapArg = a.Args[0]
+			}
+		}
+		ok := yr != nil && nIdiv == 1 && leapArg.Equal(PAtom(yr))
+		r.Ob("inverse:day-of-year", p.Pos(e.Pos), ok, fmt.Sprintf("day of year = %s: the leap days subtracted must be those of the same year count as the 365-day term (a value cached before the year-estimate correction is one leap day off at the end of leap years)", clip(e.Val.String(), 120)))
+	}
+	if !found {
+		r.Ob("inverse:day-of-year", "-", false, "day-of-year computation not found in the inverse conversion")
 	}
 }
 
